@@ -2,8 +2,11 @@ package checks
 
 import (
 	"encoding/json"
+	"fmt"
 
+	"github.com/syndtr/goleveldb/leveldb/storage"
 	"verif/explore"
+	"verif/vstor"
 )
 
 // C09 — no call blocks forever and Close always returns.
@@ -23,6 +26,25 @@ func c09Drivers() []concParams {
 		{Name: "two-tables-one-slot-vs-close", Cfg: "tinycache/bytewise", Pre: []string{"put:a", "put:b", "put:c", "cr", "q"}, Clients: [][]string{{"get:a", "get:c", "get:b"}, {"close"}}, QB: 2, TB: 3},
 		{Name: "close-vs-close", Cfg: "default/bytewise", Clients: [][]string{{"put:a"}, {"close"}, {"close"}}},
 	}
+}
+
+// c09FaultDrivers: the schedule drivers with one storage fault armed during the window.
+func c09FaultDrivers() []concParams {
+	f := func(k vstor.Kind, t storage.FileType, nth, count int, m vstor.Mode) []faultSpec {
+		return []faultSpec{{Kind: int(k), Type: int(t), Nth: nth, Count: count, Mode: int(m), Name: fmt.Sprintf("%s/%s#%d x%d", k, t, nth, count)}}
+	}
+	var out []concParams
+	add := func(name, cfg string, pre []string, clients [][]string, fs []faultSpec) {
+		out = append(out, concParams{Name: name, Cfg: cfg, Pre: pre, Clients: clients, Faults: fs, QB: 1, TB: 2})
+	}
+	for nth := 1; nth <= 2; nth++ {
+		add(fmt.Sprintf("writers+journal-sync-fault#%d-vs-close", nth), "default/bytewise", nil, [][]string{{"put:a", "put:b"}, {"put:b"}, {"close"}}, f(vstor.KWrite, storage.TypeJournal, nth, 1, vstor.ModeFail))
+		add(fmt.Sprintf("tr+manifest-sync-fault#%d-vs-writer", nth), "bigbatch/bytewise", nil, [][]string{{"tr:+a,+b"}, {"put:a"}, {"get:a"}}, f(vstor.KSync, storage.TypeManifest, nth, 3, vstor.ModeFail))
+		add(fmt.Sprintf("flush+table-create-fault#%d-vs-reader-close", nth), "flushy/bytewise", []string{"put:a"}, [][]string{{"put:a", "put:b"}, {"get:a"}, {"close"}}, f(vstor.KCreate, storage.TypeTable, nth, 1, vstor.ModeFail))
+		add(fmt.Sprintf("bigbatch+table-write-fault#%d-vs-writer", nth), "bigbatch/bytewise", nil, [][]string{{"w:+a,+b,+c"}, {"put:a"}, {"close"}}, f(vstor.KWrite, storage.TypeTable, nth, 1, vstor.ModeFail))
+	}
+	add("compact+manifest-write-fault-vs-tr", "flushy/bytewise", []string{"put:a", "put:b"}, [][]string{{"cr"}, {"tr:+a,+b"}, {"put:c"}}, f(vstor.KWrite, storage.TypeManifest, 1, 1, vstor.ModeFail))
+	return out
 }
 
 func init() {
@@ -54,9 +76,14 @@ func init() {
 					hist = append(hist, s)
 				}
 			}
-			runFaultCheck(c, "C09", cfgs, hist, quick, false)
+			rd, rmax := 5, 4
+			if !quick {
+				rd, rmax = 6, 10
+			}
+			runFaultCheck(c, "C09", cfgs, hist, quick, false, richHistories(c, "C09", rd, rmax)...)
 			runConcChecks(c, "C09", c09Drivers(), 2, 0)
-			c.Coverage["rule"] = "(a) per history x single-fault plan (as C08) the history is followed by a probe suite whose every call must return; (b) DFS over schedules with deviation bounding of clients racing Close / SetReadOnly / transactions / CompactRange; verdict per execution from the scheduler: deadlock (nobody enabled, no timer), hang (virtual clock passes 1h with a client call outstanding), livelock (step budget); distinct_nontrivial = fault plans whose error surfaced + distinct concurrent histories"
+			runConcChecks(c, "C09", c09FaultDrivers(), 1, 0)
+			c.Coverage["rule"] = "(a) per history x single-fault plan (as C08) the history is followed by a probe suite whose every call must return; (b) DFS over schedules with deviation bounding of clients racing Close / SetReadOnly / transactions / CompactRange; (c) the same with one storage fault armed during the window (journal write, manifest sync x3, table create, table write, manifest write); verdict per execution from the scheduler: deadlock (nobody enabled, no timer), hang (virtual clock passes 1h with a client call outstanding), livelock (step budget); distinct_nontrivial = fault plans whose error surfaced + distinct concurrent histories"
 			c.Assume = []string{"virtual time: timers fire only when no goroutine is enabled; horizon one virtual hour", "bounded schedules (deviation bound per driver in per_driver)"}
 		},
 	})
